@@ -3,6 +3,7 @@
 use crate::env::{self, *};
 use crate::mapdrv::MapDrv;
 use crate::setdrv::SetDrv;
+use crate::tabledrv::{ElemT, TableDrv, T0, T1, TE};
 use crate::trace::{Event, Tracer};
 use rand::rngs::SmallRng;
 use rand::{Rng, SeedableRng};
@@ -136,6 +137,18 @@ pub fn mix_table(mix: &str) -> Vec<(&'static str, u32)> {
             ("xor_assign", 4), ("sub_assign", 4), ("clone", 2), ("clone_from", 3), ("clear", 1), ("shrink_to_fit", 1),
             ("extend", 3), ("retain", 1), ("drain", 1),
         ],
+        "table" => vec![
+            ("t_insert_unique", 26), ("t_remove", 22), ("t_find", 8), ("t_find_mut", 4), ("t_entry_or_insert", 8),
+            ("t_entry_insert", 4), ("t_entry_and_modify", 3), ("t_entry_drop", 3), ("t_remove_reinsert", 8),
+            ("t_occ_get_mut", 2), ("t_iter_hash", 6), ("retain", 2), ("t_extract_if", 3), ("drain", 1), ("iter", 4),
+            ("into_iter", 1), ("clear", 1), ("reserve", 2), ("shrink_to", 2), ("t_shrink_to_fit", 2), ("try_reserve", 1),
+            ("clone", 1), ("clone_from", 2), ("t_get_many_mut", 4),
+        ],
+        "tablezst" => vec![
+            ("t_insert_unique", 30), ("t_remove", 24), ("t_find", 6), ("t_entry_drop", 3), ("t_remove_reinsert", 6),
+            ("t_iter_hash", 4), ("retain", 2), ("t_extract_if", 3), ("drain", 2), ("iter", 5), ("into_iter", 2),
+            ("clear", 1), ("reserve", 2), ("shrink_to", 2), ("t_shrink_to_fit", 2), ("clone", 1), ("clone_from", 2),
+        ],
         "wide" => {
             let mut v = vec![];
             for m in ["basic", "entry", "iter", "many", "cap"] {
@@ -226,6 +239,30 @@ impl OpGen {
             | "difference" | "symmetric_difference" | "op_or" | "op_and" | "op_xor" | "op_sub" | "or_assign" | "and_assign"
             | "xor_assign" | "sub_assign" => {
                 ev.u = if self.nt > 1 { 3 - t } else { t };
+            }
+            "t_insert_unique" | "t_find" | "t_find_mut" | "t_entry_or_insert" | "t_entry_insert" | "t_entry_and_modify"
+            | "t_entry_drop" | "t_remove" | "t_remove_reinsert" | "t_occ_get_mut" => {
+                ev.n = if rng.random_range(0..6) == 0 { 1 } else { 0 };
+            }
+            "t_iter_hash" => {
+                ev.n = if rng.random_range(0..6) == 0 { 1 } else { 0 };
+                ev.j = rng.random_range(0..2);
+            }
+            "t_extract_if" => {
+                for c in 0..self.nkeys {
+                    if rng.random_range(0..2) == 0 {
+                        ev.ks.push(c as i64);
+                    }
+                }
+                ev.j = if rng.random_range(0..3) == 0 { -1 } else { rng.random_range(0..6) };
+            }
+            "t_get_many_mut" => {
+                let n = rng.random_range(0..5);
+                for _ in 0..n {
+                    ev.ks.push(rng.random_range(0..self.nkeys) as i64);
+                }
+                ev.v = rng.random_range(10..20);
+                ev.j = if rng.random_range(0..4) == 0 { 1 } else { 0 };
             }
             "get_or_insert_with" => {
                 ev.n = if rng.random_range(0..5) == 0 { rng.random_range(0..self.nkeys) as i64 } else { ev.k };
@@ -356,6 +393,46 @@ where
     finish(tr)
 }
 
+fn run_table<E: ElemT>(sc: &Scen, seed: u64, tr: &mut Tracer) -> i32 {
+    let mut rng = SmallRng::seed_from_u64(seed ^ 0x9E37_79B9_7F4A_7C15);
+    let nt = 2usize;
+    env::reset_all();
+    let p1 = make_plan(&sc.plan, sc.nkeys + 1, &mut rng);
+    let p2 = make_plan(sc.opt("plan2").unwrap_or(&sc.plan), sc.nkeys + 1, &mut rng);
+    env::with(|e| e.plans = vec![p1, p2]);
+    let w = hashbrown::verif::GROUP_WIDTH;
+    let (es, _) = hashbrown::verif::table_layout::<E>();
+    let ea = std::mem::align_of::<E>();
+    tr.reset("table", &sc.name(), w, es, ea, std::mem::needs_drop::<E>(), E::TRACKED, nt, "lawful", seed);
+    let mut drv: TableDrv<E> = TableDrv::new(nt, w);
+    for t in 1..=nt {
+        drv.exec(Event::new("new", t), tr);
+    }
+    let gen = OpGen::new(&sc.mix, sc.nkeys, nt);
+    for _ in 0..sc.ops {
+        let ev = gen.gen(&mut rng, &|_t, _c| false);
+        drv.exec(ev, tr);
+    }
+    for t in 1..=nt {
+        drv.exec(Event::new("drop", t), tr);
+    }
+    finish(tr)
+}
+
+macro_rules! dispatch_table {
+    ($layout:expr, $f:ident, $($arg:expr),*) => {
+        match $layout {
+            "te24" => $f::<TE<()>>($($arg),*),
+            "te32" => $f::<TE<Pad8>>($($arg),*),
+            "te208" => $f::<TE<Pad184>>($($arg),*),
+            "tea64" => $f::<TE<PadA64>>($($arg),*),
+            "t1" => $f::<T1>($($arg),*),
+            "t0" => $f::<T0>($($arg),*),
+            other => panic!("unknown table layout {}", other),
+        }
+    };
+}
+
 macro_rules! dispatch_set {
     ($layout:expr, $f:ident, $($arg:expr),*) => {
         match $layout {
@@ -393,6 +470,7 @@ pub fn drive(out: &str, seed: u64, scens: &[String]) -> i32 {
         let rc = match sc.kind.as_str() {
             "map" => dispatch_map!(sc.layout.as_str(), run_map, &sc, sseed, &mut tr),
             "set" => dispatch_set!(sc.layout.as_str(), run_set, &sc, sseed, &mut tr),
+            "table" => dispatch_table!(sc.layout.as_str(), run_table, &sc, sseed, &mut tr),
             other => panic!("unknown scenario kind {}", other),
         };
         if rc != 0 {
